@@ -74,6 +74,7 @@ from vgi_rpc.utils import (
     _is_optional_type,
     empty_batch,
     new_ipc_stream,
+    validate_batch,
 )
 
 if TYPE_CHECKING:
@@ -452,7 +453,12 @@ def _read_request(
             does not match ``REQUEST_VERSION``.
 
     """
-    reader = ValidatedReader(ipc.open_stream(reader_stream), ipc_validation)
+    # Read the batch *unvalidated* first: content validation is deferred until
+    # the request stream has been consumed and its metadata recorded, so that
+    # a well-framed request whose contents are invalid (e.g. a string column
+    # that is not UTF-8) can still be answered with an error, on a connection
+    # that stays in step, by a caller that knows which method it named.
+    reader = ValidatedReader(ipc.open_stream(reader_stream), IpcValidation.NONE)
     batch, custom_metadata = reader.read_next_batch_with_custom_metadata()
     # Drain past the request stream's EOS *before* any validation that
     # might raise.  On pipe/subprocess transports the underlying reader
@@ -461,6 +467,7 @@ def _read_request(
     # tear down the worker connection.
     _drain_stream(reader)
     _current_request_metadata.set(custom_metadata)
+    validate_batch(batch, ipc_validation)
     # Stash the batch for access-log enrichment -- but only when the
     # transport has not already captured the raw wire bytes, which are
     # cheaper and more faithful (see _request_wire_bytes). Serializing here
